@@ -681,6 +681,7 @@ def rule_cfg_defuse(ctx):
     """CFG-DEFUSE: every item of the proc-macro crate that exists only under a `#[cfg(..)]` (helper modules, re-exports, functions, types of impl/src/utils.rs and its sub-modules) is available wherever it is named: the predicate of each using item (file gate x enclosing item gates) implies the disjunction of the predicates under which a definition / re-export of that name exists. Decided by exhaustive truth tables over the feature variables; nothing is compiled. A gate that loses a feature (`any(.., feature = "try_from")` dropped from `mod either`) breaks exactly the configurations enabling only that feature, which the `full` test build never sees."""
     mp = module_predicates(ctx.files, "impl/src/lib.rs", "impl/src")
     defs = {}  # name -> [pred]
+    primary = {}  # name -> [pred] of the definitions proper (not re-exports)
     ungated = set()
     external = set()
     per_file_items = {}
@@ -716,6 +717,8 @@ def rule_cfg_defuse(ctx):
                     ungated.add(n)
                 else:
                     defs.setdefault(n, []).append(pred)
+                    if k != "Item::Use":
+                        primary.setdefault(n, []).append(pred)
     # a name that is also reached through an external crate somewhere (`syn::Meta`) is ambiguous: left out
     for rel, f in ctx.files.items():
         if rel not in per_file_items:
@@ -742,6 +745,11 @@ def rule_cfg_defuse(ctx):
                 t = x["0"] if "0" in x and A.kind(x) == "UseTree::Name" else x
                 if "ident" in t:
                     seg_names = [t["ident"]["sym"]]
+            elif k in ("UsePath", "UseTree::Path"):
+                # `use self::spanning::Spanning`: the module named on the way must exist as well
+                t = x["0"] if "0" in x and A.kind(x) == "UseTree::Path" else x
+                if "ident" in t:
+                    seg_names = [t["ident"]["sym"]]
             else:
                 continue
             hit = [s for s in seg_names if s in names]
@@ -759,12 +767,14 @@ def rule_cfg_defuse(ctx):
                 # the defining item itself
                 if A.kind(it) in ("Item::Mod",) and it["ident"]["sym"] == nm:
                     continue
-                if A.kind(it) == "Item::Use" and rel.endswith("utils.rs") and any(leaf == nm for _, leaf in _use_leaf_names(it["tree"])) and not mods:
+                reexport = A.kind(it) == "Item::Use" and rel.endswith("utils.rs") and any(leaf == nm for _, leaf in _use_leaf_names(it["tree"])) and not mods
+                if reexport and not primary.get(nm):
                     continue
                 if A.kind(it) in ("Item::Struct", "Item::Enum", "Item::Type", "Item::Trait", "Item::Fn") and it.get("ident", it.get("sig", {}).get("ident", {})).get("sym") == nm:
                     continue
                 n_uses += 1
-                want = ("any", defs[nm])
+                # a re-export needs the definition proper; everything else may go through any definition or re-export
+                want = ("any", primary[nm] if reexport else defs[nm])
                 ok, cex = implies(pred, want)
                 ctx.obligation(ok)
                 if not ok:
